@@ -693,6 +693,9 @@ func topProductionFrame(stack string) string {
 }
 
 func (s *Sim) stepTick(dt int64) bool {
+	if dt < 0 {
+		dt = 0 // the simulated clock is monotone; the oracles rely on it
+	}
 	if !s.alive || s.stopped {
 		// time passes even when the server is down
 		s.Now += dt
